@@ -87,8 +87,8 @@ class deflated_solver : public amgcl::detail::non_copyable {
                     const std::string &path = ""
                     ) const
             {
-                AMGCL_PARAMS_EXPORT_CHILD(p, path, nvec);
-                AMGCL_PARAMS_EXPORT_CHILD(p, path, vec);
+                AMGCL_PARAMS_EXPORT_VALUE(p, path, nvec);
+                AMGCL_PARAMS_EXPORT_VALUE(p, path, vec);
                 AMGCL_PARAMS_EXPORT_CHILD(p, path, precond);
                 AMGCL_PARAMS_EXPORT_CHILD(p, path, solver);
             }
